@@ -17,27 +17,35 @@ TABLE_OF_T = {'readCoils': 'c', 'writeCoil': 'c', 'writeCoils': 'c', 'readDiscre
               'readHolding': 'h', 'writeRegister': 'h', 'writeRegisters': 'h', 'maskWrite': 'h', 'readWrite': 'h'}
 
 
+EXC_KINDS = {'runtime': RuntimeError, 'key': KeyError, 'index': IndexError, 'value': ValueError, 'io': IOError,
+             'attr': AttributeError, 'type': TypeError, 'zero': ZeroDivisionError}
+
+
 class RaisingBlock(BaseModbusDataBlock):
-    """a datastore that fails on every access"""
+    """a datastore that fails on every access (with the exception class a custom backend might raise: a dict-backed
+    one raises KeyError, a remote one IOError, ...)"""
     values = []
     address = 0
     default_value = 0
 
+    def __init__(self, exc='runtime'):
+        self.exc = EXC_KINDS.get(exc, RuntimeError)
+
     def validate(self, address, count=1):
-        raise RuntimeError('datastore failure')
+        raise self.exc('datastore failure')
 
     def getValues(self, address, count=1):
-        raise RuntimeError('datastore failure')
+        raise self.exc('datastore failure')
 
     def setValues(self, address, values):
-        raise RuntimeError('datastore failure')
+        raise self.exc('datastore failure')
 
     def __iter__(self):
         return iter([])
 
 
 def mk_slave(desc):
-    blocks = [RaisingBlock() if b['kind'] == 'broken' else mk_block(b) for b in desc['blocks']]
+    blocks = [RaisingBlock(b.get('exc', 'runtime')) if b['kind'] == 'broken' else mk_block(b) for b in desc['blocks']]
     omit = desc.get('omit') or []
     if omit:
         # tables the caller leaves out: ModbusSlaveContext creates their (default) blocks itself; those are what is dumped
@@ -72,7 +80,7 @@ def gen_layout(rng, broken_p=0.0, small=True):
     else:
         idx = {t: rng.randrange(n) for t in 'dcih'}
     if broken_p and rng.random() < broken_p:
-        blocks.append({'kind': 'broken'})
+        blocks.append({'kind': 'broken', 'exc': rng.choice(sorted(EXC_KINDS))})
         idx[rng.choice('dcih')] = len(blocks) - 1
     return {'blocks': blocks, 'd': idx['d'], 'c': idx['c'], 'i': idx['i'], 'h': idx['h'], 'zero': rng.random() < 0.5}
 
